@@ -128,6 +128,19 @@ def gen_cases(rng, tier):
         if rng.random() < 0.5:
             pts.reverse()
         cases.append(("hair_px", [rng.randrange(3), 1 if i % 8 < 6 else 0, 0, w, h, 0] + list(IDENT) + poly_ops(pts, close=False, grid=64.0)))
+    # tiled pixmaps (wider than 8191): hairlines running in the narrow band just past the tile seam, crossing it, and ending on it
+    for i in range(6 if tier == "quick" else 60):
+        w, h = 8200, 40
+        k = i % 3
+        if k == 0:
+            x0 = 8191 + rng.choice([-0.3, 0.2, 0.6, 1.2])
+            pts = [(x0, 5), (x0 + rng.uniform(0.1, 0.6), 35)]
+        elif k == 1:
+            xs = 8191 + rng.choice([0.3, 0.8, 1.3])
+            pts = [(8000.4, 5), (xs, 10), (xs, 35)]
+        else:
+            pts = [(8150 + rng.uniform(0, 20), rng.uniform(3, 36)), (8199, rng.uniform(3, 36)), (8185, rng.uniform(3, 36))]
+        cases.append(("hair_px", [rng.randrange(3), i % 2, 0, w, h, 0] + list(IDENT) + poly_ops(pts, close=False, grid=16.0)))
     # large cubics with lopsided control polygons (the subdivision count must follow the larger deviation)
     for i in range(24 if tier == "quick" else 400):
         w, h = rng.choice([(200, 120), (160, 160), (120, 200)])
